@@ -102,6 +102,10 @@ def case(rep, drv, rnd, i, tier):
                     extra.append(('query', name, ('raise', k), args))
                     rep.count('consumer-raises')
                 rep.count('abandon-points')
+            if na >= 1 and rnd.random() < 0.6:
+                # evaluate_bounded whose projection function raises at the k-th answer
+                extra.append(('eb', 3000, name, rnd.randint(1, na), args))
+                rep.count('evaluate_bounded-projection-raises')
             # and the same query again: the answers must be the same as the first time
             extra.append(('query', name, ('all',), args))
         ops = ops + extra
@@ -124,7 +128,7 @@ def case(rep, drv, rnd, i, tier):
                 if na >= 1:
                     rep.nontriv(scen.norm([S.program_text(prog), op[1], op[3]]))
     if i < 3:
-        rep.sample({'prolog': S.program_text(prog), 'queries': [scen.norm([o[1], list(o[2])] + list(o[3])) for o in ops[1:8]]})
+        rep.sample({'prolog': S.program_text(prog), 'queries': [scen.norm(list(o)) for o in ops[1:8]]})
 
 
 def run(prop, tier, knobs_fn, n_quick, n_thorough, rule, sched_mode='all', queries_per_prog=3):
